@@ -392,4 +392,496 @@ def witnessP2 : Val := .node 2 0 0 [.node 2 1 2 [.node 1 2 4 [], .node 1 2 4 []]
 def witnessC1 : Val :=
   .node 2 0 0 [.node 2 1 2 [.node 1 2 4 [], .node 1 2 4 []], .node 2 1 2 [.node 1 2 4 [], .node 1 2 4 []]]
 
+
+/-! ### Lifting a predicate on computations through `createNode` -/
+
+def _root_.GEVerif.Res.state {α : Type} : Res α → SynSt
+  | .ok _ s => s
+  | .err _ s => s
+
+/-- the retry step of `createAbstract`: a `SynthesisException` of `m` is caught and `h` runs on
+the state the failed attempt left behind -/
+def retryM (m : SynM Val) (k : Val → Val) (h : SynM Val) : SynM Val := fun s =>
+  match m s with
+  | .ok v s2 => .ok (k v) s2
+  | .err .synthesis s2 => h s2
+  | .err e s2 => .err e s2
+
+theorem createAbstract_succ (g : Grammar) (dec : Decider) (fuel n : Nat) (prods : List Nat)
+    (ctx : Ctx) :
+    createAbstract g dec (fuel + 1) n prods ctx =
+      if prods.isEmpty then throwE .synthesis else
+      chooseProd g dec (.cls n) (prods.map Ty.cls) ctx >>= fun rule =>
+        retryM (createNode g dec fuel rule ⟨ctx.depth, ctx.exp + 1⟩ [])
+          (fun v => v.setCtx ctx.depth ctx.exp)
+          (createAbstract g dec fuel n (prods.filter fun p => !(Ty.cls p == rule)) ctx) := by
+  funext s
+  rw [createAbstract]
+  dsimp only
+  split
+  · rfl
+  · rw [SynM.bind_def]
+    cases chooseProd g dec (Ty.cls n) (List.map Ty.cls prods) ctx s with
+    | err e s1 => rfl
+    | ok rule s1 =>
+      simp only [retryM]
+      cases createNode g dec fuel rule ⟨ctx.depth, ctx.exp + 1⟩ [] s1 with
+      | ok v s2 => rfl
+      | err e s2 => cases e <;> rfl
+
+/-- predicates on computations closed under the monadic structure and the global `randint` -/
+structure Closed0 (P : ∀ {α : Type}, SynM α → Prop) : Prop where
+  pure : ∀ {α : Type} (a : α), P (Pure.pure a : SynM α)
+  throwE : ∀ {α : Type} (e : Err), P (throwE e : SynM α)
+  bind : ∀ {α β : Type} (m : SynM α) (f : α → SynM β), P m → (∀ a, P (f a)) → P (m >>= f)
+  randint : ∀ lo hi, P (randintM lo hi)
+
+/-- … and under everything else `createNode` is built from -/
+structure Closed (g : Grammar) (dec : Decider) (P : ∀ {α : Type}, SynM α → Prop) : Prop
+    extends Closed0 P where
+  decInt : ∀ E lo hi, P (decIntM dec E lo hi)
+  decFloat : P (decFloatM dec)
+  decBool : P (decBoolM dec)
+  floatDraw : P floatDrawM
+  chooseProd : ∀ key alts ctx, P (chooseProd g dec key alts ctx)
+  retry : ∀ (m : SynM Val) (k : Val → Val) (h : SynM Val), P m → P h → P (retryM m k h)
+
+section
+variable {P : ∀ {α : Type}, SynM α → Prop}
+
+theorem Closed0.of_choiceIdx (hP : Closed0 P) (n : Nat) : P (choiceIdxM n) := by
+  unfold choiceIdxM
+  split
+  · exact hP.throwE _
+  · exact hP.bind _ _ (hP.randint _ _) (fun _ => hP.pure _)
+
+theorem Closed0.of_listGet (hP : Closed0 P) {α : Type} (xs : List α) (i : Nat) : P (listGetM xs i) := by
+  unfold listGetM
+  split
+  · exact hP.pure _
+  · exact hP.throwE _
+
+theorem Closed0.of_resolveDep (hP : Closed0 P) (mh : MH) (deps : List (String × Val)) :
+    P (resolveDep mh deps) := by
+  unfold resolveDep
+  repeat' split
+  all_goals first | exact hP.pure _ | exact hP.throwE _
+
+theorem Closed0.of_genChars (hP : Closed0 P) (al : List String) (n : Nat) : P (genChars al n) := by
+  induction n with
+  | zero => exact hP.pure _
+  | succ n ih =>
+    unfold genChars
+    exact hP.bind _ _ (hP.of_choiceIdx _) fun _ => hP.bind _ _ (hP.of_listGet _ _) fun _ =>
+      hP.bind _ _ ih fun _ => hP.pure _
+
+theorem Closed0.of_deciderInt (hP : Closed0 P) (E : Nat) (lo hi : Int) : P (deciderIntM E lo hi) := by
+  unfold deciderIntM
+  split
+  · exact hP.bind _ _ (hP.randint _ _) fun _ => hP.bind _ _ (hP.randint _ _) fun _ =>
+      hP.bind _ _ (hP.of_choiceIdx _) fun _ => hP.pure _
+  · exact hP.randint _ _
+end
+
+
+/-- closes goals `P (…)` for computations built from `pure`, `throwE`, `>>=`, `randintM`,
+`choiceIdxM`, `listGetM` and pure `if`/`match` -/
+macro "closed0_auto " h:ident : tactic => `(tactic|
+  repeat' (first
+    | exact Closed0.throwE $h _
+    | exact Closed0.pure $h _
+    | exact Closed0.of_listGet $h _ _
+    | exact Closed0.of_choiceIdx $h _
+    | exact Closed0.randint $h _ _
+    | refine Closed0.bind $h _ _ ?_ (fun _ => ?_)
+    | dsimp only
+    | split))
+
+section
+variable {P : ∀ {α : Type}, SynM α → Prop} {g : Grammar} {dec : Decider}
+
+theorem Closed.createNode_all (hP : Closed g dec P) : ∀ fuel,
+    (∀ ty ctx deps, P (createNode g dec fuel ty ctx deps)) ∧
+    (∀ n prods ctx, P (createAbstract g dec fuel n prods ctx)) ∧
+    (∀ fs nctx deps, P (createFields g dec fuel fs nctx deps)) ∧
+    (∀ t nctx deps k, P (createElems g dec fuel t nctx deps k)) ∧
+    (∀ ts ctx, P (createTuple g dec fuel ts ctx)) := by
+  have h0 := hP.toClosed0
+  intro fuel
+  induction fuel with
+  | zero =>
+    refine ⟨?_, ?_, ?_, ?_, ?_⟩ <;> intros <;> simp only [createNode, createAbstract, createFields, createElems, createTuple] <;> exact hP.throwE _
+  | succ fuel ih =>
+    obtain ⟨ihN, ihA, ihF, ihE, ihT⟩ := ih
+    refine ⟨?_, ?_, ?_, ?_, ?_⟩
+    · intro ty ctx deps
+      cases ty with
+      | int =>
+        simp only [createNode]
+        exact hP.bind _ _ (hP.decInt _ _ _) fun _ => hP.pure _
+      | float =>
+        simp only [createNode]
+        exact hP.bind _ _ hP.decFloat fun _ => hP.pure _
+      | bool =>
+        simp only [createNode]
+        exact hP.bind _ _ hP.decBool fun _ => hP.pure _
+      | str =>
+        simp only [createNode]
+        exact hP.pure _
+      | tuple ts =>
+        simp only [createNode]
+        exact hP.bind _ _ (ihT _ _) fun _ => hP.pure _
+      | list t =>
+        simp only [createNode]
+        exact hP.bind _ _ (hP.decInt _ _ _) fun _ => hP.bind _ _ (ihE _ _ _ _) fun _ => hP.pure _
+      | union ts =>
+        simp only [createNode]
+        exact hP.bind _ _ (hP.chooseProd _ _ _) fun _ => hP.bind _ _ (ihN _ _ _) fun _ => hP.pure _
+      | cls n =>
+        simp only [createNode]
+        split
+        · exact hP.throwE _
+        · split
+          · exact ihA _ _ _
+          · exact hP.bind _ _ (ihF _ _ _) fun _ => hP.pure _
+      | ann base mh =>
+        simp only [createNode]
+        split
+        · exact hP.bind _ _ (h0.of_resolveDep _ _) fun _ => hP.bind _ _ (ihN _ _ _) fun _ => hP.pure _
+        · cases mh with
+          | intRange lo hi => exact hP.bind _ _ (hP.randint _ _) fun _ => hP.pure _
+          | intList xs =>
+            exact hP.bind _ _ (h0.of_choiceIdx _) fun _ => hP.bind _ _ (h0.of_listGet _ _) fun _ => hP.pure _
+          | varRange opts =>
+            exact hP.bind _ _ (h0.of_choiceIdx _) fun _ => hP.bind _ _ (h0.of_listGet _ _) fun _ => hP.pure _
+          | listSize lo hi =>
+            dsimp only
+            split
+            · exact hP.bind _ _ (hP.randint _ _) fun _ => hP.bind _ _ (ihE _ _ _ _) fun _ => hP.pure _
+            · exact hP.throwE _
+          | strSize lo hi al =>
+            exact hP.bind _ _ (hP.randint _ _) fun _ => hP.bind _ _ (h0.of_genChars _ _) fun _ => hP.pure _
+          | interval mn mx top =>
+            exact hP.bind _ _ (hP.randint _ _) fun _ => hP.bind _ _ (hP.randint _ _) fun _ => hP.pure _
+          | floatRange => exact hP.bind _ _ hP.floatDraw fun _ => hP.pure _
+          | floatList n => exact hP.bind _ _ (h0.of_choiceIdx _) fun _ => hP.pure _
+          | depIntRangeLo f hi => exact hP.throwE _
+          | depIntRangeHi lo f => exact hP.throwE _
+          | depListSize f => exact hP.throwE _
+          | depVarFrom f => exact hP.throwE _
+    · intro n prods ctx
+      rw [createAbstract_succ]
+      split
+      · exact hP.throwE _
+      · exact hP.bind _ _ (hP.chooseProd _ _ _) fun _ => hP.retry _ _ _ (ihN _ _ _) (ihA _ _ _)
+    · intro fs nctx deps
+      cases fs with
+      | nil => simp only [createFields]; exact hP.pure _
+      | cons f fs =>
+        obtain ⟨name, t⟩ := f
+        simp only [createFields]
+        exact hP.bind _ _ (ihN _ _ _) fun _ => hP.bind _ _ (ihF _ _ _) fun _ => hP.pure _
+    · intro t nctx deps k
+      cases k with
+      | zero => simp only [createElems]; exact hP.pure _
+      | succ k =>
+        simp only [createElems]
+        exact hP.bind _ _ (ihN _ _ _) fun _ => hP.bind _ _ (ihE _ _ _ _) fun _ => hP.pure _
+    · intro ts ctx
+      cases ts with
+      | nil => simp only [createTuple]; exact hP.pure _
+      | cons t ts =>
+        simp only [createTuple]
+        exact hP.bind _ _ (ihN _ _ _) fun _ => hP.bind _ _ (ihT _ _) fun _ => hP.pure _
+end
+
+/-! ### Single-run invariants: relations between the state before and after -/
+
+/-- every run of `m` relates its initial state to its final state (ok and err alike) -/
+def Respects (R : SynSt → SynSt → Prop) {α : Type} (m : SynM α) : Prop := ∀ s, R s (m s).state
+
+/-- a reflexive, transitive relation on states respected by the three state-changing primitives -/
+structure StepRel (R : SynSt → SynSt → Prop) : Prop where
+  refl : ∀ s, R s s
+  trans : ∀ a b c, R a b → R b c → R a c
+  raw : ∀ lo hi, Respects R (rawRandintM lo hi)
+  read : ∀ k, Respects R (dsgeRead k)
+  expanding : ∀ s e, R s { s with expanding := e }
+
+section
+variable {R : SynSt → SynSt → Prop}
+
+theorem StepRel.bind (hR : StepRel R) {α β : Type} (m : SynM α) (f : α → SynM β)
+    (hm : Respects R m) (hf : ∀ a, Respects R (f a)) : Respects R (m >>= f) := by
+  intro s
+  rw [SynM.bind_def]
+  have h1 := hm s
+  cases hms : m s with
+  | ok a s1 =>
+    rw [hms] at h1
+    exact hR.trans _ _ _ h1 (hf a s1)
+  | err e s1 =>
+    rw [hms] at h1
+    exact h1
+
+theorem StepRel.dsgeInt (hR : StepRel R) (lo hi : Int) : Respects R (dsgeIntM lo hi) := by
+  unfold dsgeIntM
+  refine hR.bind _ _ (hR.read _) fun v => ?_
+  split
+  · exact fun s => hR.refl s
+  · exact fun s => hR.refl s
+
+theorem StepRel.closed0 (hR : StepRel R) : Closed0 (fun {α} (m : SynM α) => Respects R m) where
+  pure a := fun s => hR.refl s
+  throwE e := fun s => hR.refl s
+  bind m f hm hf := hR.bind m f hm hf
+  randint lo hi := by
+    intro s
+    unfold randintM
+    split
+    · exact hR.dsgeInt lo hi s
+    · exact hR.raw lo hi s
+
+theorem StepRel.closed (hR : StepRel R) (g : Grammar) (dec : Decider) :
+    Closed g dec (fun {α} (m : SynM α) => Respects R m) where
+  toClosed0 := hR.closed0
+  decInt E lo hi := by
+    unfold decIntM
+    split
+    · exact hR.dsgeInt lo hi
+    · exact hR.closed0.of_deciderInt E lo hi
+  decFloat := by
+    have h0 := hR.closed0
+    have hother : Respects R (fun s =>
+        match s.src with
+        | .scripted _ => (do let _ ← randintM 0 0; pure () : SynM Unit) s
+        | .gene _ => (do let _ ← randintM 0 0; let _ ← randintM 0 0; pure () : SynM Unit) s) := by
+      intro s
+      dsimp only
+      split
+      · exact h0.bind _ _ (h0.randint _ _) (fun _ => h0.pure _) s
+      · exact h0.bind _ _ (h0.randint _ _) (fun _ => h0.bind _ _ (h0.randint _ _) fun _ => h0.pure _) s
+    unfold decFloatM
+    generalize dec.kind = k
+    cases k <;> dsimp only
+    all_goals first
+      | exact hother
+      | exact h0.bind _ _ (hR.read _) (fun _ => h0.pure _)
+  decBool := by
+    have h0 := hR.closed0
+    unfold decBoolM
+    split
+    · exact h0.bind _ _ (hR.read _) fun _ => h0.pure _
+    · exact h0.bind _ _ (h0.of_choiceIdx _) fun _ => h0.pure _
+  floatDraw := by
+    have h0 := hR.closed0
+    intro s
+    unfold floatDrawM
+    split
+    · exact h0.bind _ _ (hR.read _) (fun _ => h0.pure _) s
+    · exact h0.bind _ _ (hR.raw _ _) (fun _ => h0.pure _) s
+  chooseProd key alts ctx := by
+    have h0 := hR.closed0
+    unfold chooseProd
+    split
+    · exact h0.throwE _
+    · split
+      · closed0_auto h0
+      · closed0_auto h0
+      · intro s
+        dsimp only
+        exact hR.trans _ _ _ (hR.expanding s _)
+          (h0.bind _ _ (h0.of_choiceIdx _) (fun _ => h0.of_listGet _ _) _)
+      · refine h0.bind _ _ (hR.read _) fun _ => ?_
+        closed0_auto h0
+      · closed0_auto h0
+  retry m k h hm hh := by
+    intro s
+    unfold retryM
+    have h1 := hm s
+    cases hms : m s with
+    | ok v s2 => rw [hms] at h1; exact h1
+    | err e s2 =>
+      rw [hms] at h1
+      cases e with
+      | synthesis => exact hR.trans _ _ _ h1 (hh s2)
+      | library => exact h1
+      | foreign _ => exact h1
+end
+
+/-! ### Keyed gene tables -/
+
+theorem tyLookup_tySet {α : Type} (k k' : Ty) (d v : α) (l : List (Ty × α)) :
+    tyLookup k' d (tySet k v l) = if k' == k then v else tyLookup k' d l := by
+  induction l with
+  | nil =>
+    simp only [tySet, tyLookup]
+    by_cases h : k = k'
+    · subst h; simp
+    · have h' : ¬ k' = k := fun e => h e.symm
+      simp [h, h']
+  | cons e rest ih =>
+    obtain ⟨k0, v0⟩ := e
+    simp only [tySet]
+    by_cases h0 : k0 = k
+    · subst h0
+      simp only [beq_self_eq_true, if_true, tyLookup]
+      by_cases h : k0 = k'
+      · subst h; simp
+      · have h' : ¬ k' = k0 := fun e => h e.symm
+        simp [h, h']
+    · have hb : (k0 == k) = false := by simpa using h0
+      simp only [hb, Bool.false_eq_true, if_false, tyLookup, ih]
+      by_cases h : k0 = k'
+      · subst h
+        simp [h0]
+      · simp [h]
+
+/-- writing back what is stored under a present key changes nothing -/
+theorem tySet_tyLookup_self (k : Ty) (l : List (Ty × List Int)) (h : tyLookup k [] l ≠ []) :
+    tySet k (tyLookup k [] l) l = l := by
+  induction l with
+  | nil => simp [tyLookup] at h
+  | cons e rest ih =>
+    obtain ⟨k0, v0⟩ := e
+    by_cases h0 : k0 = k
+    · subst h0
+      simp [tySet, tyLookup]
+    · have hb : (k0 == k) = false := by simpa using h0
+      simp only [tyLookup, hb, Bool.false_eq_true, if_false] at h ⊢
+      simp only [tySet, hb, Bool.false_eq_true, if_false, ih h]
+
+/-- key-wise prefix order on dynamic-SGE genotypes -/
+def KeyPrefix (d d' : DSGEDna) : Prop := ∀ k, tyLookup k [] d <+: tyLookup k [] d'
+
+theorem KeyPrefix.refl (d : DSGEDna) : KeyPrefix d d := fun _ => List.prefix_refl _
+theorem KeyPrefix.trans {a b c : DSGEDna} (h1 : KeyPrefix a b) (h2 : KeyPrefix b c) :
+    KeyPrefix a c := fun k => List.IsPrefix.trans (h1 k) (h2 k)
+
+theorem KeyPrefix.tySet (k : Ty) (d : DSGEDna) (genes' : List Int)
+    (h : tyLookup k [] d <+: genes') : KeyPrefix d (tySet k genes' d) := by
+  intro k'
+  rw [tyLookup_tySet]
+  split
+  · rename_i hk
+    have hk' : k' = k := by simpa using hk
+    subst hk'; exact h
+  · exact List.prefix_refl _
+
+/-! ### `extendGenes` and `dsgeRead` -/
+
+theorem rawRandintM_gene_ok (s : SynSt) :
+    ∃ v src', rawRandintM 0 MAX_GENE_VALUE s = .ok v { s with src := src' } ∧
+      (∀ x, s.src = .gene x → ∃ y, src' = .gene y ∧ y.dna = x.dna) := by
+  unfold rawRandintM
+  have : ¬ (MAX_GENE_VALUE < 0) := by decide
+  simp only [this, if_false]
+  refine ⟨_, _, rfl, ?_⟩
+  intro x hx
+  rw [hx]
+  exact ⟨_, rfl, rfl⟩
+
+/-- `extendGenes` never fails; it appends to the gene list, touches only the random source, and
+reaches position `n` when given the fuel `dsgeRead` gives it -/
+theorem extendGenes_spec (fuel : Nat) (genes : List Int) (n : Nat) (s : SynSt) :
+    ∃ genes' src', extendGenes fuel genes n s = .ok genes' { s with src := src' } ∧
+      genes <+: genes' ∧ (n + 1 ≤ fuel + genes.length → n < genes'.length) ∧
+      (n < genes.length → genes' = genes ∧ src' = s.src) ∧
+      (∀ x, s.src = .gene x → ∃ y, src' = .gene y ∧ y.dna = x.dna) := by
+  induction fuel generalizing genes s with
+  | zero =>
+    refine ⟨genes, s.src, rfl, List.prefix_refl _, ?_, fun _ => ⟨rfl, rfl⟩, fun x hx => ⟨x, hx, rfl⟩⟩
+    intro h; omega
+  | succ fuel ih =>
+    unfold extendGenes
+    by_cases hn : n < genes.length
+    · simp only [hn, if_true]
+      exact ⟨genes, s.src, rfl, List.prefix_refl _, fun _ => hn, fun _ => ⟨rfl, rfl⟩,
+        fun x hx => ⟨x, hx, rfl⟩⟩
+    · simp only [hn, if_false]
+      obtain ⟨v, src1, h1, hg1⟩ := rawRandintM_gene_ok s
+      rw [SynM.bind_def, h1]
+      dsimp only
+      obtain ⟨genes', src', h2, hp, hlen, _, hg2⟩ := ih (genes ++ [v]) { s with src := src1 }
+      refine ⟨genes', src', h2, ?_, ?_, fun h => h.elim, ?_⟩
+      · exact List.IsPrefix.trans (List.prefix_append _ _) hp
+      · intro h; apply hlen; simp; omega
+      · intro x hx
+        obtain ⟨y, hy, hyd⟩ := hg1 x hx
+        obtain ⟨z, hz, hzd⟩ := hg2 y hy
+        exact ⟨z, hz, hzd.trans hyd⟩
+
+/-- full description of one `DynamicSGEDecider.read` -/
+theorem dsgeRead_spec (k : Ty) (s : SynSt) :
+    ∃ genes' src',
+      dsgeRead k s = .ok (genes'.getD (tyLookup k 0 s.pos) 0)
+        { s with src := src', dna := tySet k genes' s.dna,
+                 pos := tySet k (tyLookup k 0 s.pos + 1) s.pos } ∧
+      tyLookup k [] s.dna <+: genes' ∧ tyLookup k 0 s.pos < genes'.length ∧
+      (tyLookup k 0 s.pos < (tyLookup k [] s.dna).length →
+        genes' = tyLookup k [] s.dna ∧ src' = s.src) ∧
+      (∀ x, s.src = .gene x → ∃ y, src' = .gene y ∧ y.dna = x.dna) := by
+  obtain ⟨genes', src', h, hp, hlen, hsame, hg⟩ :=
+    extendGenes_spec (tyLookup k 0 s.pos + 1 - (tyLookup k [] s.dna).length)
+      (tyLookup k [] s.dna) (tyLookup k 0 s.pos) s
+  refine ⟨genes', src', ?_, hp, hlen (by omega), hsame, hg⟩
+  unfold dsgeRead
+  dsimp only
+  rw [h]
+
+/-! ### The two single-run invariants of C07 -/
+
+/-- a genotype-backed source stays a genotype-backed source over the same genes -/
+def GeneKept (s s' : SynSt) : Prop :=
+  ∀ x, s.src = .gene x → ∃ y, s'.src = .gene y ∧ y.dna = x.dna
+
+theorem rawRandintM_state (lo hi : Int) (s : SynSt) :
+    ∃ src', (rawRandintM lo hi s).state = { s with src := src' } ∧
+      (∀ x, s.src = .gene x → ∃ y, src' = .gene y ∧ y.dna = x.dna) := by
+  unfold rawRandintM
+  split
+  · exact ⟨s.src, rfl, fun x hx => ⟨x, hx, rfl⟩⟩
+  · refine ⟨_, rfl, ?_⟩
+    intro x hx
+    rw [hx]
+    exact ⟨_, rfl, rfl⟩
+
+theorem geneKept_stepRel : StepRel GeneKept where
+  refl s := fun x hx => ⟨x, hx, rfl⟩
+  trans a b c h1 h2 := fun x hx => by
+    obtain ⟨y, hy, hyd⟩ := h1 x hx
+    obtain ⟨z, hz, hzd⟩ := h2 y hy
+    exact ⟨z, hz, hzd.trans hyd⟩
+  raw lo hi := fun s => by
+    obtain ⟨src', h, hg⟩ := rawRandintM_state lo hi s
+    rw [h]; exact hg
+  read k := fun s => by
+    obtain ⟨genes', src', h, _, _, _, hg⟩ := dsgeRead_spec k s
+    rw [h]; exact hg
+  expanding s e := fun x hx => ⟨x, hx, rfl⟩
+
+/-- the dynamic-SGE genotype only grows, key by key -/
+def DnaGrows (s s' : SynSt) : Prop := KeyPrefix s.dna s'.dna
+
+theorem dnaGrows_stepRel : StepRel DnaGrows where
+  refl s := KeyPrefix.refl _
+  trans a b c h1 h2 := KeyPrefix.trans h1 h2
+  raw lo hi := fun s => by
+    obtain ⟨src', h, _⟩ := rawRandintM_state lo hi s
+    rw [h]; exact KeyPrefix.refl _
+  read k := fun s => by
+    obtain ⟨genes', src', h, hp, _, _, _⟩ := dsgeRead_spec k s
+    rw [h]; exact KeyPrefix.tySet k s.dna genes' hp
+  expanding s e := KeyPrefix.refl _
+
+theorem createNode_geneKept (g : Grammar) (dec : Decider) (fuel : Nat) (ty : Ty) (ctx : Ctx)
+    (deps : List (String × Val)) (s : SynSt) :
+    GeneKept s (createNode g dec fuel ty ctx deps s).state :=
+  ((geneKept_stepRel.closed g dec).createNode_all fuel).1 ty ctx deps s
+
+theorem createNode_dnaGrows (g : Grammar) (dec : Decider) (fuel : Nat) (ty : Ty) (ctx : Ctx)
+    (deps : List (String × Val)) (s : SynSt) :
+    KeyPrefix s.dna (createNode g dec fuel ty ctx deps s).state.dna :=
+  ((dnaGrows_stepRel.closed g dec).createNode_all fuel).1 ty ctx deps s
+
 end GEVerif.Genotype
